@@ -253,7 +253,7 @@ fn meta_strategy(t: Tier) -> BoxedStrategy<MetaCase> {
     let (mv, ma) = if t == Tier::Quick { (6, 6) } else { (20, 20) };
     (
         valid_case_strategy(mv, ma),
-        proptest::option::weighted(0.6, prop_oneof![3 => "\\PC{0,40}", 2 => "[ -~]{0,60}", 1 => Just(String::new()), 1 => "\\PC{300,1500}", 1 => any::<String>(),
+        proptest::option::weighted(0.6, prop_oneof![3 => "\\PC{0,40}", 2 => "[ -~]{0,60}", 1 => Just(String::new()), 1 => "\\PC{300,1500}", 1 => any::<String>(), 3 => crate::scenario::title_strategy(),
             1 => (proptest::sample::select(vec![240usize, 247, 248, 254, 255, 256, 257, 65_511, 65_519, 65_520, 65_527, 65_535, 65_536, 70_000]), proptest::sample::select(vec!['a', 'é', '€', '😀'])).prop_map(|(n, ch)| std::iter::repeat(ch).take(n / ch.len_utf8() + 1).collect::<String>())]),
         proptest::option::weighted(0.5, prop_oneof![6 => 0u64..4_102_444_800, 4 => 0u64..253_402_300_800, 1 => Just(0u64), 1 => Just(86_399u64)]),
         proptest::option::weighted(0.6, prop_oneof![5 => "[a-z]{3}", 1 => "[A-Z]{3}", 1 => "[a-z]{0,2}", 1 => "[a-z0-9]{4,6}", 1 => "\\PC{1,4}"]),
